@@ -526,6 +526,10 @@ func churnProgram(rng *rand.Rand, n int, big bool, variant int) *program {
 	}
 	keys := keysN(nk)
 	p := &program{Src: "churn", T: T, IdleMs: 0, Keys: keys, ObsEvery: 97, Pattern: "^[abc]"}
+	if !big {
+		// half of the churn programs have a cursor walk under way all the time: tables are emptied and recycled between its pages
+		p.Walk = []int{0, 3, 0, 1, 10, 0, 2, 0}[variant%8]
+	}
 	if !big && []bool{true, false, false, false, true, true, false, false}[variant%8] {
 		// recycled tables are kept for an hour (the default is 15 minutes): they have to be re-used, not piled up
 		p.IdleMs = 3600000
